@@ -21,6 +21,7 @@ trust-region Newton; convergence.
 -/
 import SharkVerif.Lemmas.GradOpt
 import SharkVerif.Gen.OptFields
+import SharkVerif.Gen.LbfgsBox
 import SharkVerif.Lemmas.BFGSList
 import SharkVerif.Lemmas.BoxDir
 import Mathlib.Tactic.Ring
@@ -953,6 +954,14 @@ theorem box_direction_nonzero_repaired (v : Variant) (hv : v.clipBySign = true) 
     have : dirCoordV v pp pBp cs c = 0 := hall' _ (by rw [directionV_eq_map]; exact List.mem_map.mpr ⟨c, hc, rfl⟩)
     rw [this]; ring
   linarith
+
+/-- the variant of `getBoxConstrainedDirection` found in the checked tree (regenerated by `translate/lbfgs_box.py`
+on every run) is one the theorems of this section cover: the unrepaired one (`box_direction_feasible_partial`,
+`box_direction_descent`, `box_direction_nonzero` via `directionV_head`) or one with repaired clipping loops
+(`box_direction_*_repaired`).  (Scaled Cauchy step with unrepaired loops is modelled and tied but has no theorems:
+this obligation then fails.) -/
+theorem tree_variant_covered :
+    SharkVerif.Gen.LbfgsBox.variant = ⟨false, false⟩ ∨ SharkVerif.Gen.LbfgsBox.variant.clipBySign = true := by decide
 
 end SharkVerif.C10.Box
 
